@@ -198,7 +198,7 @@ def gen_std(rng, tier):
 CHECK = {
     "property": "C24",
     "props": "Props/C24.v",
-    "theorems": ["c24_total", "c24_stops", "c24_valid"],
+    "theorems": ["c24_total", "c24_stops", "c24_stops_run", "c24_valid", "c24_owner_absolute", "c24_include_origin"],
     "allowed_axioms": [],
     "suites": [
         {"name": "zonefuzz", "runner_name": "C24_run", "impl_bin": "impl_c24", "extract": "Extract/ExC24.v", "driver": "run_c24.ml",
